@@ -7,6 +7,10 @@ From SK Require Import model.C03_Model model.C05_Model proof.C05_Proof proof.C05
   proof.C05_Order proof.C05_Main proof.C05_Set proof.C05_Result proof.C05_AllStrat proof.C05_PrepOrder proof.C05_Default.
 Import ListNotations.
 
+Section WithThr.
+Context {TH : Thr}.
+
+
 Lemma pipeline_glued inv strat host tpl p :
   prepare inv true tpl = Some p -> pipeline inv true false strat host tpl = Some (glued_of strat host p).
 Proof. intros H. unfold pipeline. rewrite H. reflexivity. Qed.
@@ -66,3 +70,5 @@ Proof.
   rewrite (prep_default_relabel sg Hs inv tpl) in Hrc, Hpat.
   exact (glued_set_rewriting_any strat sg pi Hs Hp host host'' (prep_default inv tpl) (prep_default inv tpl'') Hst S S'' Hh Hrc Hpat).
 Qed.
+
+End WithThr.
